@@ -21,11 +21,19 @@ def ref_safe(vp):
     return not any(c in vp for c in "~^:?*[]\\ ") and ".." not in vp and "//" not in vp and not vp.endswith((".", "/")) and not vp.startswith(("/", "-"))
 
 
-def run_history(rng, length):
+def run_history(rng, length, script=None):
+    """`script`: a fixed list of (kind, days) steps instead of random ones (the `behind` scenario: two updates a year apart, fall back to the
+    first commit, update again the next day — with a file whose only pattern is a partial one such as a copyright year)"""
     for _ in range(200):
-        pr = rwcommon.gen_ok_project(rng, max_files=3, max_pats=3, license_file=rng.random() < 0.5)
+        if script:
+            pr = rwcommon.gen_ok_project(rng, max_files=2, max_pats=2, license_file=True,
+                                         vp=rng.choice(["vYYYY.BUILD[-TAG]", "YYYY.MM.PATCH", "vYYYY0M.BUILD[-TAG]", "YYYY.BUILD[PYTAGNUM]", "vYYYY.MINOR.PATCH"]))
+        else:
+            pr = rwcommon.gen_ok_project(rng, max_files=3, max_pats=3, license_file=rng.random() < 0.5)
         if ref_safe(pr["vp"]):
             break
+    if script:
+        length = len(script)
     pr["variants"] = True       # implicit self pattern, non-normalised file keys, a glob key that also matches the config file
     vp = pr["vp"]
     tree = refimpl.tokenize(vp)
@@ -40,12 +48,15 @@ def run_history(rng, length):
         model_ops = []
         cur_text = pr["old"]
         old_heads = [p.git("rev-parse", "HEAD").strip()]
+        after_behind = False
         for i in range(length):
             kind = rng.choice(["update", "update", "update", "update", "fail", "no_tag", "no_commit", "unrelated", "branch", "behind", "behind"])
             head0 = p.git("rev-parse", "HEAD").strip()
             ncommits0 = int(p.git("rev-list", "--count", "HEAD").strip())
             tags0 = sorted(p.git("tag", "--list").split())
-            if kind != "behind" and cur_text in tags0 and len(old_heads) >= 2 and rng.random() < 0.3:
+            if script:
+                kind = script[i][0]
+            elif kind != "behind" and cur_text in tags0 and len(old_heads) >= 2 and rng.random() < 0.3:
                 kind = "behind"
             step = {"i": i, "kind": kind}
             if kind == "unrelated":
@@ -62,9 +73,10 @@ def run_history(rng, length):
                     step["kind"] = "behind-skipped"
                     case["steps"].append(step)
                     continue
-                target = rng.choice(old_heads[:-1][:2] + old_heads[:-1])       # biased towards the oldest commits
+                target = old_heads[0] if script else rng.choice(old_heads[:-1][:2] + old_heads[:-1])       # biased towards the oldest commits
                 p.git("checkout", "-q", "-b", "behind%d" % i, target)
                 step["target"] = target
+                after_behind = True
                 case["steps"].append(step)
                 continue
             if kind == "branch":
@@ -75,7 +87,10 @@ def run_history(rng, length):
                 p.git("commit", "-q", "-m", "branch %d" % i)
                 case["steps"].append(step)
                 continue
-            date = date + dt.timedelta(days=rng.choice([0, 0, 1, 30, 200]))
+            # right after falling behind the date barely moves: parts that the new version shares with the newest tag (a copyright year)
+            # then differ only from what is on disk
+            date = date + dt.timedelta(days=script[i][1] if script else rng.choice([0, 0, 1] if after_behind else [0, 0, 1, 30, 200, 400]))
+            after_behind = False
             if date > dt.date(2096, 1, 1):
                 break
             c = refimpl.cal_of(date)
@@ -190,8 +205,13 @@ def run(chk, driver, tier):
                          "--no-commit / --no-tag-commit runs, unrelated commits and branch switches, over grammar patterns and generated layouts, with real git; "
                          "non-trivial = distinct history") % length
     hist_ops, hist_impl = [], []
-    for _ in range(nhist):
-        pr, case, verdict = run_history(rng, rng.randint(3, length))
+    behind_script = [("update", 3), ("update", 400), ("behind", 0), ("update", 1), ("update", 30)]
+    for hi in range(nhist):
+        if hi % 6 == 5:
+            pr, case, verdict = run_history(rng, 0, script=behind_script)
+            chk.count("scripted:behind")
+        else:
+            pr, case, verdict = run_history(rng, rng.randint(3, length))
         if verdict is None and case.get("model_ops"):
             hist_ops.append({"op": "history", "pattern": case["vp"], "config_version": case["start"], "tags": [], "today": [2026, 9, 29],
                              "ops": [{"candidate": o["candidate"], "commit": o["commit"], "tag": o["tag"]} for o in case["model_ops"]]})
